@@ -175,11 +175,35 @@ from .C14 import VIEW_ATTRS, VIEW_CALLS, VIEW_FUNCS, INPLACE_METHODS, INPLACE_FU
 LIST_ONLY = {"append", "remove", "extend", "insert", "pop", "clear", "reverse", "update"}
 
 
-def alias_effects(prog, fi):
+_RET_ALIAS = {}
+
+
+def returns_alias_of(prog, fi, depth=2):
+    """names of the parameters of fi that (a view of) the returned value may be: `return values` on one path of a helper that otherwise
+    returns a new array makes every in-place effect on its result an effect on the caller's argument"""
+    key = (id(prog), id(fi.node))
+    if key in _RET_ALIAS:
+        return _RET_ALIAS[key]
+    _RET_ALIAS[key] = set()             # (recursion guard)
+    pos, kwo, va, kwa = astq.params_of(fi.node)
+    out = set()
+    for p_ in set(pos + kwo) - {"self", "cls"}:
+        eff_, al = alias_effects(prog, fi, seeds={p_}, depth=depth - 1)
+        chk = al["__is_alias__"]
+        for r in ast.walk(fi.node):
+            if isinstance(r, ast.Return) and r.value is not None:
+                vals = r.value.elts if isinstance(r.value, ast.Tuple) else [r.value]
+                if any(chk(v) for v in vals):
+                    out.add(p_)
+    _RET_ALIAS[key] = out
+    return out
+
+
+def alias_effects(prog, fi, seeds=None, depth=2):
     """[(node, description)] of in-place effects on values that may alias a parameter or self.data"""
     pos, kwo, va, kwa = astq.params_of(fi.node)
     params = set(pos + kwo) - {"self", "cls"}
-    alias = set(params)
+    alias = set(params) if seeds is None else set(seeds)
 
     def is_alias(e):
         if isinstance(e, ast.Name):
@@ -198,6 +222,17 @@ def alias_effects(prog, fi):
                 return is_alias(e.args[0])
             if isinstance(e.func, ast.Attribute) and e.func.attr in VIEW_CALLS:
                 return is_alias(e.func.value)
+            if depth > 0:
+                # a helper of the package that hands back (a view of) one of its arguments on some path
+                try:
+                    r_ = prog.resolve_call(fi, e)
+                except Exception:
+                    r_ = None
+                if isinstance(r_, FuncInfo) and r_.node is not fi.node:
+                    ra = returns_alias_of(prog, r_, depth)
+                    if ra:
+                        m_, _errs = astq.bind_args(r_.node, e, bound=isinstance(e.func, ast.Attribute) and r_.cls is not None and not getattr(r_, "is_static", False))
+                        return any(isinstance(m_.get(p_), ast.AST) and is_alias(m_[p_]) for p_ in ra)
         if isinstance(e, ast.IfExp):
             return is_alias(e.body) or is_alias(e.orelse)
         return False
@@ -308,6 +343,8 @@ def alias_effects(prog, fi):
                     out.append((n, f"`{k.arg}=True` lets the library overwrite its input"))
                 if k.arg == "copy" and isinstance(k.value, ast.Constant) and k.value.value is False and nm in ("numpy.nan_to_num",) and n.args and is_alias(n.args[0]):
                     out.append((n, f"`{astq.src(n, 50)}` replaces the values in place (copy=False) in an array that may alias a parameter / the bound data"))
+    if seeds is not None:
+        return out, {"__is_alias__": is_alias, "names": alias}
     return out, alias
 
 
@@ -509,6 +546,54 @@ def determinism(prog, run, reach):
 
 
 # ----------------------------------------------------------------------------- R-result-fresh
+def _held_elsewhere(prog, fi, at, v, depth=2):
+    """True when the object `v` stands for is also kept in (or taken from) a container / attribute of the instance: stored by
+    `self.X[k] = obj` / `self.X = obj` or read by `self.X.get(k)` / `self.X[k]`, here or in the helper that returns it"""
+    def on_self(e):
+        while isinstance(e, (ast.Attribute, ast.Subscript)):
+            e = e.value
+        return isinstance(e, ast.Name) and e.id == "self"
+
+    def scan(f_, names):
+        names = set(names)
+        grown = True
+        while grown:                # names the object goes by: `a = b` makes b another name of what a holds
+            grown = False
+            for n in ast.walk(f_.node):
+                if isinstance(n, ast.Assign) and isinstance(n.value, ast.Name) and n.value.id not in names and any(isinstance(t, ast.Name) and t.id in names for t in n.targets):
+                    names.add(n.value.id)
+                    grown = True
+        for n in ast.walk(f_.node):
+            if isinstance(n, ast.Assign):
+                if isinstance(n.value, ast.Name) and n.value.id in names and any(isinstance(t, (ast.Subscript, ast.Attribute)) and on_self(t) for t in n.targets):
+                    return True
+                if any(isinstance(t, ast.Name) and t.id in names for t in n.targets):
+                    for c in ast.walk(n.value):
+                        if isinstance(c, ast.Call) and isinstance(c.func, ast.Attribute) and c.func.attr in ("get", "pop", "setdefault") and on_self(c.func.value):
+                            return True
+                        if isinstance(c, ast.Subscript) and on_self(c.value) and not (isinstance(c.value, ast.Attribute) and c.value.attr in ("data", "shape")):
+                            return True
+        return False
+    if isinstance(v, ast.Name):
+        if scan(fi, {v.id}):
+            return True
+        v = astq.expr_at(fi, at, v)
+    if isinstance(v, ast.Call) and depth > 0:
+        try:
+            res = prog.resolve_call(fi, v)
+        except Exception:
+            res = None
+        if isinstance(res, FuncInfo) and res.node is not getattr(fi, "node", None):
+            for r in ast.walk(res.node):
+                if isinstance(r, ast.Return) and r.value is not None:
+                    if isinstance(r.value, ast.Name) and scan(res, {r.value.id}):
+                        return True
+                    if _held_elsewhere(prog, res, r, r.value, depth - 1):
+                        return True
+            return False
+    return False
+
+
 def _fresh(prog, fi, at, v, depth=3):
     """True: the value is an object constructed on this path (its result class, directly or inside a helper whose every return is
     fresh); False: an existing object (attribute of self, parameter, None); None: not recognised"""
@@ -518,6 +603,17 @@ def _fresh(prog, fi, at, v, depth=3):
     if isinstance(x, ast.Call):
         if isinstance(x.func, ast.Attribute) and x.func.attr == "ResultCls":
             return True
+        if isinstance(x.func, ast.Attribute) and x.func.attr == "model_validate" and x.args:
+            # pydantic does not re-validate instances: Model.model_validate(obj) IS obj when obj already is an instance of Model (for
+            # another class a new object is built from its attributes).  The result is new only if obj is: an object that also lives in
+            # a container / attribute of the instance (a cache entry) is handed out itself
+            inner = _fresh(prog, fi, at, x.args[0], depth)
+            if inner is False:
+                return False
+            held = _held_elsewhere(prog, fi, at, x.args[0])
+            if held:
+                return False
+            return None if inner is None or held is None else True
         try:
             res = prog.resolve_call(fi, x)
         except Exception:
@@ -558,7 +654,9 @@ def result_fresh(prog, run):
             if good is not True:
                 ok = False if (good is False or ok is False) else None
                 why.append(astq.src(r.value, 50) if r.value is not None else "None")
-        run.ob("R-result-fresh", m.qual, "returns a newly constructed result object", ok, "constructs its result class" if ok else f"returns {why}", witness=";".join(why), file=f, node=m.node)
+        run.ob("R-result-fresh", m.qual, "returns a newly constructed result object", ok, "constructs its result class" if ok else f"returns {why}" + (
+                   " - model_validate(obj) hands back obj itself when it already is an instance of the class, and obj also lives in a container of the instance (a cache entry): "
+                   "the stored result and that entry are one object" if ok is False and any("model_validate" in w_ for w_ in why) else ""), witness=";".join(why), file=f, node=m.node)
     # instance-only assignment of result / run_params / data / fs
     n_sites = 0
     for modname in ALGO_MODS + ("pyoma2.algorithms.base", "pyoma2.setup.base", "pyoma2.setup.single", "pyoma2.setup.multi"):
